@@ -1,4 +1,4 @@
-(* C07 — kernel computation, shard 2 of 4: all acyclic directed layers on 4 nodes x 16 of the 64 bidirected edge sets *)
+(* C07 — kernel computation, shard 2 of 16: all 543 acyclic directed layers on 4 nodes x 4 of the 64 bidirected edge sets *)
 From Coq Require Import List Arith Bool.
 From PG Require Import Graph.MGraph C06.Enum C07.Model C07.Enum C07.BoundedDefs.
 Import ListNotations.
